@@ -196,3 +196,32 @@ class BudgetBytesIO(io.BytesIO):
     def readline(self, *a):
         self._tick()
         return super().readline(*a)
+
+
+def pipe_like(data, chunk=64):
+    """what os.fdopen(pipe), sys.stdin.buffer, Popen.stdout or socket.makefile("rb") give: an io.BufferedReader over a
+    raw stream that cannot seek - it HAS seek() and tell() attributes, and both raise"""
+    import io
+
+    class _Raw(io.RawIOBase):
+        def __init__(self, d):
+            super().__init__()
+            self.d, self.p, self.calls = d, 0, 0
+
+        def readable(self):
+            return True
+
+        def seekable(self):
+            return False
+
+        def readinto(self, b):
+            self.calls += 1
+            if self.calls > 4 * len(self.d) + 256:
+                raise Fail("non-termination", f"raw stream read {self.calls} times for {len(self.d)} bytes")
+            n = min(len(b), len(self.d) - self.p)
+            b[:n] = self.d[self.p : self.p + n]
+            self.p += n
+            return n
+
+    _note(len(data) + 16)
+    return io.BufferedReader(_Raw(data), buffer_size=chunk or 64)
